@@ -199,7 +199,8 @@ def proj_rule(r, comments=True, literal=False):
     if t == R.UNKNOWN_RULE:
         return ('unknown', r.atkeyword.lower(), unknown_items(r))
     if t == R.VARIABLES_RULE:
-        return ('variables', tuple((k, r.variables[k]) for k in r.variables.keys()))
+        # (comments inside a variable's value are presentation, like comments inside any value)
+        return ('variables', tuple((k, _ws(re.sub(r'/\*.*?\*/', ' ', r.variables[k], flags=re.S))) for k in r.variables.keys()))
     return ('other', r.typeString, _ws(r.cssText))
 
 
